@@ -505,12 +505,12 @@ class Parser:
 
         name = str(self._current_token)
         self.next_token()
-        if self._detect_routine_start():
-            if not self._context.get_routine(name).undefined:
-                return self.token_error('Already defined: "{}"')
-            return self._routine_definition(name)
-        if not self._context.get_macro(name).undefined:
+        # A name stands for one routine or one constant, not for both.
+        if self._context.has_symbol_typed(
+                name, SymbolType.MACRO, SymbolType.ROUTINE):
             return self.trigger_error('Already defined: "{}"'.format(name))
+        if self._detect_routine_start():
+            return self._routine_definition(name)
         return self._macro_definition(name)
 
     def _detect_routine_start(self) -> bool:
@@ -539,7 +539,7 @@ class Parser:
                 # _current_literal() has reported the invalid pattern.
                 return False
             inner_macro = self._context.get_macro(str(self._current_token))
-            if inner_macro is None:
+            if inner_macro.undefined:
                 return self.token_error('Macro needs constant, got "{}"')
             value = inner_macro.value
         self._context.add_global(name, SymbolType.MACRO, value)
